@@ -51,7 +51,7 @@ Texts ==
       [] Profile = "lex2" -> {"x", "\n", "  ", "\n  ", "  \n", "x\n  "}
       [] Profile = "lex3" -> {"\n", "  ", "x\n  "}
       [] Profile = "struct" -> {"x", "\n  "}
-      [] Profile = "expr" -> {"<", ">\n"}
+      [] Profile = "expr" -> {"<"}
       [] OTHER -> {}
 TextW == IF Profile = "struct" THEN 1 ELSE 0
 
@@ -81,12 +81,13 @@ Exprs ==
             "u is defined", "v is defined", "u is undefined", "n is odd", "n is even", "n is divisibleby(3)", "v is string",
             "n is number", "xs is iterable", "xs is sequence", "d is mapping", "v is none", "n is sameas(n)", "v is lower", "v is upper",
             "n is eq(3)", "n is gt(1)", "v | lower | upper", "'%s-%s' | format(v, n)", "v | format", "n | filesizeformat",
-            "s | wordwrap(3)", "s | truncate(3, true, '~', 0)", "xs | attr('zz')", "(xs | length) + n", "v * 2", "[v, n] | join(',')",
+            "s | truncate(3, true, '~', 0)", "xs | attr('zz')", "(xs | length) + n", "v * 2", "[v, n] | join(',')",
             "s | urlencode", "joiner(',')()", "cycler(1, 2).next()", "v[0:1]", "xs[1:]", "xs[-1]", "v | trim | length"}
       [] OTHER -> {}
 
+(* a body starting with `*` only in the single-construct profile: `{#*` is an ordinary comment upstream            *)
 CommentBodies ==
-    CASE IsLex -> {" c ", "* c *", " c\n  d "}
+    CASE Profile = "lex1" -> {" c ", "* c *", " c\n  d "}
       [] OTHER -> {" c "}
 RawBodies ==
     CASE Profile \in {"lex1", "lex2"} -> {"r", " {{ v }}\n  {% if %} "}
@@ -113,8 +114,8 @@ PText == \E t \in Texts : (IF ks = <<>> THEN TRUE ELSE ks[Len(ks)] # "text") /\ 
 
 PVar == "var" \in Kinds /\ \E e \in Exprs, l \in VLeads, r \in Trails : Put(V(l, e, r), "var", 1, Cost(l, r), stack, FALSE)
 
-PComment == "comment" \in Kinds /\ \E b \in CommentBodies, l \in BLeads, r \in Trails :
-                Put(C(l, b, r), IF b = "* c *" THEN "comment*" ELSE "comment", 1, Cost(l, r), stack, l = "+")
+PComment == "comment" \in Kinds /\ \E b \in CommentBodies, l \in VLeads, r \in Trails :
+                Put(C(l, b, r), IF b = "* c *" THEN "comment*" ELSE "comment", 1, Cost(l, r), stack, FALSE)
 
 PRaw == "raw" \in Kinds /\ \E b \in RawBodies, l1 \in BLeads, r1 \in Trails, l2 \in {"", "-"}, r2 \in Trails :
             Put(B(l1, "raw", r1) \o b \o B(l2, "endraw", r2), "raw", 1, Cost(l1, r1) + Cost(l2, r2), stack, l1 = "+")
@@ -158,10 +159,10 @@ Contexts == << [c1 |-> TRUE,  c2 |-> FALSE, v |-> "V", s |-> "ab\n cd", n |-> 3,
 (* ============================================ Part 2: marker ========================================== *)
 (* phases: wrap -> pre -> construct -> post -> done.  aux.pp collects the plain twin, aux.pre/ws/post the   *)
 (* literals the T-layer needs.                                                                            *)
-MWraps == {"none", "if", "for1", "block"}
-MPres(wrap) == IF wrap = "none" THEN {"", "A", "A\n", "\n", "A\n\n"} ELSE {"", "A", "A\n"}
+MWraps == IF MaxW >= 2 THEN {"none", "if", "for1", "block"} ELSE {"none", "if"}
+MPres(wrap) == IF wrap = "none" THEN {"", "A", "A\n", "\n", "A\n\n"} ELSE {"", "A\n"}
 MWs == IF MaxWc >= 2 THEN {"", " ", "  ", "\t", " \t", "      "} ELSE {"", "  ", "\t"}
-MPosts == IF MaxWc >= 2 THEN {"", "Z", "\nZ", "  Z", "\n  Z\n"} ELSE {"", "\nZ", "  Z"}
+MPosts(wrap) == IF wrap # "none" THEN {"Z", "\nZ"} ELSE IF MaxWc >= 2 THEN {"", "Z", "\nZ", "  Z", "\n  Z\n"} ELSE {"", "\nZ", "  Z"}
 (* strings of the context with their line-ending styles (values in MStrings below)                         *)
 MVarExprs == {"s1", "s2", "s3", "s4", "s5", "s6", "s7", "s8", "s9", "s10", "s1 | upper", "'q1\\nq2'", "n", "xs", "none", "u",
               "e1", "e2", "e3"}
@@ -194,7 +195,7 @@ MBlock == aux.ph = "con" /\ \E ws \in MWs, b \in MBlocks, body \in MBodies, r1 \
            /\ LET tail == IF b[3] = "" THEN "" ELSE body \o B(l2, b[3], r2)
               IN MPut(ws \o "{%*" \o sp \o b[2] \o sp \o r1 \o "%}" \o tail, B("", b[2], r1) \o tail, "mblock",
                       [aux EXCEPT !.ph = "post", !.ws = ws, !.ck = b[1]])
-MPost == aux.ph = "post" /\ \E p \in MPosts :
+MPost == aux.ph = "post" /\ \E p \in MPosts(aux.wrap) :
            LET c == CASE aux.wrap = "if" -> B("", "endif", "") [] aux.wrap = "for1" -> B("", "endfor", "") [] aux.wrap = "block" -> B("", "endblock", "") [] OTHER -> ""
            IN MPut(p \o c, p \o c, "text", [aux EXCEPT !.ph = "done", !.post = p])
 MNext == MWrap \/ MPre \/ MVar \/ MBlock \/ MPost
@@ -257,6 +258,9 @@ UNext == UClause \/ UElse \/ UEnd
 (* I => P for the chains: the parse loop with its carried negate flag selects the branch of the ordinary   *)
 (* conditional                                                                                            *)
 ChainRefines == (Profile = "ifuses" /\ aux.ph = "done") => ChainI(aux.cl, aux.else) = ChainP(aux.cl, aux.else)
+
+(* negative control (must be REFUTED): a parse loop that forgets `negate = False` on elifuses                  *)
+CarriedNegateRefines == (Profile = "ifuses" /\ aux.ph = "done") => ChainIWith(aux.cl, aux.else, FALSE) = ChainP(aux.cl, aux.else)
 
 (* ============================================ Part 4: sem ============================================= *)
 (* all texts up to MaxW over {x, SP, LF, CR, FF} x prefixes: do_lineprefix as coded satisfies P.           *)
